@@ -353,7 +353,8 @@ def ret_events(trace):
 
 def deterministic(sc):
     """The outcome of the directive is a function of the scenario: at most one fault, no cancellation."""
-    return sc["cancel"] == "none" and len([k for k, v in sc["out"].items() if v in ("err", "panic")]) <= 1
+    # (a Hold scenario cancels the context as soon as the held body runs: which other tasks ran by then is a race)
+    return sc["cancel"] == "none" and not sc.get("hold") and len([k for k, v in sc["out"].items() if v in ("err", "panic")]) <= 1
 
 
 def c20(c):
